@@ -266,6 +266,9 @@ func (w simRW) Flush() {
 func (w simRW) Write(p []byte) (int, error) { return w.q.write(p, "rw.write") }
 
 func (q *ReqIO) write(p []byte, label string) (int, error) {
+	q.mu.Lock()
+	stalled := q.window > 0 && len(q.out)-q.consumed >= q.window && !q.aborted && !q.wbroken
+	q.mu.Unlock()
 	q.setWritePark(true)
 	ok := q.rwSlot.Yield(label, q, opWrite)
 	q.setWritePark(false)
@@ -276,6 +279,15 @@ func (q *ReqIO) write(p []byte, label string) (int, error) {
 	defer q.mu.Unlock()
 	defer q.sync()
 	if q.aborted || q.wbroken {
+		// net/http: a Write that was blocked on the peer is released with an
+		// error, a large one fails when its buffer is flushed, but a small
+		// Write after the peer went away just lands in the 4 KiB buffer and
+		// reports success (Flush has no error to return). A hijacked
+		// connection fails at once.
+		if !q.hijacked && !stalled && len(p) < 4096 {
+			q.sim.Note("write " + itoa(len(p)) + " swallowed by the buffer of a dead connection")
+			return len(p), nil
+		}
 		q.sim.Count(cWriteError)
 		return 0, errClientGone
 	}
